@@ -76,6 +76,9 @@ class World:
                                          persistent='auto' if s['auto'] else 'on', readonly=bool(s.get('ro')))
             if s['write']:
                 def w(self, value, _n=name):
+                    if getattr(self, 'offline', False):
+                        from frappy.errors import HardwareError
+                        raise HardwareError('the device is offline')
                     self.writes.append((_n, value))
                     return value
                 w.__name__ = 'write_' + name
@@ -256,7 +259,11 @@ class World:
                     ops.append(['save'])
                     m.saveParameters()
                     if m.writeDict:
-                        continue          # documented: nothing is saved before all values were written to the hardware
+                        # documented: nothing is saved before all values were handed to the hardware - but every start-up and
+                        # every reload of this history has done that (writeInitParams returned, failed writes included)
+                        r.violation('C17/history/save-skipped/values-still-waiting-to-be-written', f'saveParameters() did nothing: {sorted(m.writeDict)} are still '
+                                    f'waiting to be written although the start-up writes were attempted', case)
+                        return
                     if knows_disk:
                         r.count('history_saves_checked')
                         if self.disk(d) != self.snapshot(m):
@@ -293,7 +300,16 @@ class World:
                     ops.append(['restart'])
                     before = self.snapshot(m) if knows_disk and self.disk(d) == self.snapshot(m) else None
                     m = self.mk(cls, d)
-                    m.writeInitParams()
+                    if rng.random() < 0.3:
+                        # the device is offline at this start: the start-up writes of the restored values fail (logged by
+                        # writeInitParams); later changes are saved all the same
+                        ops[-1] = ['restart', 'device offline']
+                        m.offline = True
+                        r.count('history_restarts_with_failing_init_writes')
+                    try:
+                        m.writeInitParams()
+                    finally:
+                        m.offline = False
                     knows_disk = True
                     if before is not None:
                         r.count('history_restarts_checked')
